@@ -711,7 +711,23 @@ def rule_r6(ctx) -> List[R.Inst]:
              any((isinstance(x, ast.Constant) and x.value in ("0", b"0")) or
                  (isinstance(x, ast.List) and len(x.elts) == 1 and isinstance(x.elts[0], ast.Constant) and x.elts[0].value in ("0", b"0"))
                  for x in (n.left, n.right))]
-    if uses and not lits:
+    # every repetition of a one-cell row, padding included, is `keys` wide: a row repeated by anything else has another width
+    def _cell(x):
+        return (isinstance(x, ast.Constant) and x.value in ("0", b"0")) or \
+               (isinstance(x, ast.List) and len(x.elts) == 1 and isinstance(x.elts[0], ast.Constant) and x.elts[0].value in ("0", b"0"))
+    other = [(n, (n.right if _cell(n.left) else n.left)) for n in ast.walk(wr.node) if isinstance(n, ast.BinOp) and isinstance(n.op, ast.Mult) and
+             (_cell(n.left) or _cell(n.right)) and not any(isinstance(x, ast.Name) and x.id == "keys" for x in (n.left, n.right))]
+    if other and not lits:
+        n, w = other[0]
+        if isinstance(w, ast.Constant) or (isinstance(w, ast.Name) and w.id.isupper()):
+            insts.append(R.viol(rid, "row-construction", file, n.lineno,
+                                f"a row of empty cells is built as '{unparse(n)}': its width is the constant '{unparse(w)}', not the key count of "
+                                f"the chart type — a 6-, 7- or 8-key chart (or a 3-key one) gets rows of the wrong width wherever this row is "
+                                f"written (an empty measure), which is not a valid row for its chart type",
+                                construct=f"empty row {unparse(n)}"))
+        else:
+            insts.append(R.undec(rid, "row-construction", file, n.lineno, f"width '{unparse(w)}' of the empty row '{unparse(n)}' is not the key count by name"))
+    elif uses and not lits:
         insts.append(R.ok(rid, "row-construction", file, uses[0].lineno, idiom="rows are ['0'] * keys"))
     elif lits:
         insts.append(R.viol(rid, "row-construction", file, lits[0].lineno,
